@@ -283,7 +283,11 @@ record: the library's span search (`findSpanLinear`) in every direction, A3.1 / 
 stored net (`Geomdl.curvePoint`, `surfacePoint`, `volumePoint`), and the division by the weight (`project`) iff the
 shape is rational.  `normParam U u = (u - U_first)/(U_last - U_first)` is the parameter of the reimported shape that
 corresponds to `u`; `InDomain p U n u` says `U_p ≤ u ≤ U_n`.  `EvalOk d` = the setters' guard `kvOk` per direction,
-a non-empty last span of the domain per direction, net of the right size, all stored points of one length `d`. -/
+a non-empty last span of the domain per direction, net of the right size, all stored points of one length `d`, and for a
+rational record POSITIVE weights (`wpos`; statement audit 5: with weights of mixed sign the weight function can vanish in
+the domain, `evaluate_single` / `derivatives` of the exported and of the reimported shape then raise `ZeroDivisionError`
+– the ops `ceval`, `cders`, … answer `ERR` – while export and import succeed; the pure import∘export identities above
+do not need it). -/
 section endToEnd
 variable [IsStrictOrderedRing K]
 
@@ -537,11 +541,11 @@ def srfPlain : Srf ℚ :=
 /-- non-vacuity witness: the hypothesis bundle `EvalOk` holds for the concrete non-rational surface above
     (closed statement, decided by evaluation) -/
 theorem srfPlain_evalOk : srfPlain.EvalOk 3 :=
-  ⟨rfl, by decide +kernel, by decide +kernel, by decide +kernel, by decide +kernel, by unfold Geomdl.NetOk; decide⟩
+  ⟨rfl, by decide +kernel, by decide +kernel, by decide +kernel, by decide +kernel, by unfold Geomdl.NetOk; decide, by decide +kernel⟩
 
 /-- non-vacuity witness: `EvalOk` holds for the concrete rational surface above (closed statement, decided by evaluation) -/
 theorem srfWitness_evalOk : srfWitness.EvalOk 4 :=
-  ⟨rfl, by decide +kernel, by decide +kernel, by decide +kernel, by decide +kernel, by unfold Geomdl.NetOk; decide⟩
+  ⟨rfl, by decide +kernel, by decide +kernel, by decide +kernel, by decide +kernel, by unfold Geomdl.NetOk; decide, by decide +kernel⟩
 
 /-- the parameter `(3, 2)` of the exported surface is `(1/3, 3/4)` on the reimported one; the common point -/
 example : (smeshRead (smeshWrite srfPlain)).map (fun s' => s'.point (normParam [2, 2, 5, 5] 3) (normParam [-1, -1, -1, 1, 3, 3, 3] 2))
@@ -618,7 +622,7 @@ def crvPlain : Crv ℚ :=
 
 /-- non-vacuity witness: `EvalOk` holds for the curve above (closed statement, decided by evaluation) -/
 theorem crvPlain_evalOk : crvPlain.EvalOk 2 :=
-  ⟨by decide +kernel, by decide +kernel, by unfold Geomdl.NetOk; decide⟩
+  ⟨by decide +kernel, by decide +kernel, by unfold Geomdl.NetOk; decide, by decide +kernel⟩
 
 example : crvPlain.asRational.ders (normParam [1, 1, 1, 2, 3, 3, 3] (5/2)) 3 = scaleJet 2 (crvPlain.ders (5/2) 3) := by
   have h := curve_reimport_derivatives crvPlain 2 crvPlain_evalOk (5/2) ⟨by decide +kernel, by decide +kernel⟩ 3
